@@ -56,6 +56,38 @@ Proof.
   apply no_secret_survives; auto. apply all_secrets_collected. exact Hs.
 Qed.
 
+(* both streams, however the command ends: what esc forwards is the redaction of all the command wrote (so the
+   forwarded bytes do not depend on the exit status), and no collected secret occurs in either *)
+Theorem cmd_run_streams : forall P deep root args e script script2,
+  let secrets := cmd_secrets deep root args in
+  let ph := rp_placeholder P in
+  let w1 := child_wrote e (cmd_stream (cmd_args root args) script) in
+  let w2 := child_wrote e script2 in
+  cmd_run P deep root args e script script2 =
+    (emit ph false w1 (stream_flags (new_replacer P secrets) w1),
+     emit ph false w2 (stream_flags (new_replacer P secrets) w2),
+     child_failed e).
+Proof.
+  intros. unfold cmd_run. rewrite !run_is_emit. cbn [concat]. rewrite !app_nil_r. reflexivity.
+Qed.
+
+Theorem cmd_run_no_secret_survives : forall P deep root args e script script2 p,
+  env_secret deep root args p ->
+  rp_min_len P <= length p -> has_inner_newline p = false -> indep (rp_placeholder P) p = true ->
+  let r := cmd_run P deep root args e script script2 in
+  ~ occurs p (fst (fst r)) /\ ~ occurs p (snd (fst r)).
+Proof.
+  intros P deep root args e script script2 p Hs Hlen Hnl Hind. cbn [cmd_run fst snd].
+  split; apply no_secret_survives; auto; apply all_secrets_collected; exact Hs.
+Qed.
+
+Lemma cmd_run_no_secret_survives_src : forall P d, d = true -> forall root args e script script2 p,
+  env_secret true root args p ->
+  rp_min_len P <= length p -> has_inner_newline p = false -> indep (rp_placeholder P) p = true ->
+  let r := cmd_run P d root args e script script2 in
+  ~ occurs p (fst (fst r)) /\ ~ occurs p (snd (fst r)).
+Proof. intros P d -> root args e script script2 p. apply cmd_run_no_secret_survives. Qed.
+
 (* the same, with the collection mode given by a fact read from the source *)
 Lemma all_secrets_collected_src : forall d, d = true -> forall root args p,
   env_secret true root args p -> In p (cmd_secrets d root args).
